@@ -16,6 +16,7 @@ coqc results are cached under work/gencache by the SHA-256 of everything the com
 the sources of the model / MiniPy / lemma files they import, coqc --version): the same inputs give the same verdict, exactly
 like make not rebuilding an up-to-date .vo.  Only successes are cached."""
 import hashlib
+import re
 import json
 import os
 import shutil
@@ -39,7 +40,7 @@ UNITS = {
         "generated": "KmerGen.v",
         "stages": [["KmerGenProofs.v"]],
         "deps": ["Py.v", "Kmer.v"],
-        "theorems": {"KmerGenProofs.v": 2},
+        "theorems": {"KmerGenProofs.v": ["obtain_latters_regenerated", "obtain_formers_regenerated"]},
     },
     "operation": {
         "functions": translate_minipy.FUNCS,
@@ -51,9 +52,65 @@ UNITS = {
                    ["OperationGenProofs.v"]],
         "deps": ["Py.v", "Bignum.v", "Convert.v", "Spec.v", "MiniPy.v", "MiniPyEnc.v", "Proofs/MiniPyLemmas.v", "Proofs/BignumProofs.v",
                  "Proofs/ConvertProofs.v"],
+        "theorems": {"AddGenProofs.v": ["calculus_addition_gen"], "SubGenProofs.v": ["calculus_subtraction_gen"],
+                     "MulGenProofs.v": ["calculus_multiplication_gen"], "DivGenProofs.v": ["calculus_division_gen"],
+                     "ConvGenProofs.v": ["bit_to_number_str_gen", "bit_to_number_int_gen", "number_to_bit_str_gen",
+                                         "number_to_bit_int_gen", "dna_to_number_str_gen", "dna_to_number_int_gen",
+                                         "number_to_dna_str_gen", "number_to_dna_int_gen"],
+                     "OperationGenProofs.v": ["C15_add_source", "C15_mul_source", "C15_sub_source", "C15_div_source",
+                                              "C16_bits_roundtrip_str_source", "C16_bits_roundtrip_int_source",
+                                              "C16_dna_roundtrip_str_source", "C16_dna_roundtrip_int_source",
+                                              "C16_dna_foreign_source"]},
+    },
+    "coder": {
+        "enabled": False,                      # switched on once every proof file of the unit is complete
+        "functions": translate_minipy.CODER_FUNCS,
+        "generate": lambda repo, d: (translate_minipy.generate(repo, os.path.join(d, "OperationGen.v")),
+                                     translate_minipy.generate_coder(repo, os.path.join(d, "CoderGen.v"))),
+        "refuse": translate_minipy.Refuse,
+        "generated": ["OperationGen.v", "CoderGen.v"],
+        "stages": [["AddGenProofs.v", "SubGenProofs.v", "MulGenProofs.v", "DivGenProofs.v", "ConvGenProofs.v"],
+                   ["OperationGenProofs.v"], ["CoderCallees.v"],
+                   ["SetVtGenProofs.v", "EncodeNormalGenProofs.v", "EncodeFastGenProofs.v", "DecodeNormalGenProofs.v",
+                    "DecodeFastGenProofs.v"],
+                   ["CoderGenProofs.v"]],
+        "deps": ["Py.v", "Bignum.v", "Convert.v", "Kmer.v", "Coder.v", "Spec.v", "CoderSpec.v", "FastSpec.v", "MiniPy.v", "MiniPyEnc.v",
+                 "Proofs/MiniPyLemmas.v", "Proofs/BignumProofs.v", "Proofs/ConvertProofs.v", "Proofs/CoderProofs.v",
+                 "Proofs/ComposeProofs.v", "Proofs/VTProofs.v"],
         "theorems": {},
     },
+    "biofilter": {
+        "functions": translate_minipy.BIOFILTER_FUNCS,
+        "generate": lambda repo, d: translate_minipy.generate_biofilter(repo, os.path.join(d, "BiofilterGen.v")),
+        "refuse": translate_minipy.Refuse,
+        "generated": "BiofilterGen.v",
+        "stages": [["FilterGenProofs.v"]],
+        "deps": ["Py.v", "Filter.v", "FilterFloat.v", "Thresholds.v", "MiniPyF.v", "MiniPyFEnc.v", "Proofs/MiniPyFLemmas.v",
+                 "Proofs/FilterProofs.v", "Proofs/FilterFloatProofs.v"],
+        "theorems_biofilter": True,
+        # binary64: Print Assumptions lists Coq's primitive float / int63 declarations and, for the theorem that goes on to the
+        # integer-threshold filter, the standard library's float axioms (harness/axioms.py names every one that is accepted)
+        "float_axioms": True,
+        "theorems": {"FilterGenProofs.v": ["filter_valid_gen", "filter_init_rejects", "filter_init_accepts", "filter_object_gen",
+                                           "C12_valid_source"]},
+    },
 }
+
+
+def _strip_comments(text):
+    out, depth, i = [], 0, 0
+    while i < len(text):
+        if text.startswith("(*", i):
+            depth += 1
+            i += 2
+        elif text.startswith("*)", i) and depth > 0:
+            depth -= 1
+            i += 2
+        else:
+            if depth == 0:
+                out.append(text[i])
+            i += 1
+    return "".join(out)
 
 
 def _sha(paths_and_texts):
@@ -95,7 +152,8 @@ def run_unit(name, repo, use_cache=True, keep=None):
         except Exception as e:  # noqa   (a syntax error in the source, a missing file ...)
             out["refused"] = repr(e)
             return out
-        gen_text = open(os.path.join(work, u["generated"])).read()
+        gens = u["generated"] if isinstance(u["generated"], list) else [u["generated"]]
+        gen_text = "".join(open(os.path.join(work, g)).read() for g in gens)
         # the header comment names the repository path: not part of the content
         body_text = "\n".join(l for l in gen_text.split("\n") if not l.startswith("(* GENERATED"))
         files = [f for st in u["stages"] for f in st]
@@ -103,6 +161,19 @@ def run_unit(name, repo, use_cache=True, keep=None):
         if missing:
             out["log"] = "proof file(s) missing: %s" % ", ".join(missing)
             return out
+        # the theorems the unit stands for must be stated (as Theorem, outside comments) and have their Print Assumptions line
+        for f, names in u.get("theorems", {}).items():
+            text = _strip_comments(open(os.path.join(COQ, "Generated", f)).read())
+            for nm in names:
+                if not re.search(r"\bTheorem\s+%s\b" % re.escape(nm), text) or not re.search(r"Print Assumptions\s+%s\s*\." % re.escape(nm), text):
+                    out["log"] = "%s: theorem %s (or its Print Assumptions) is missing" % (f, nm)
+                    out["failed_file"] = f
+                    return out
+            if re.search(r"\b(Admitted|admit|Axiom|Parameter|Conjecture|Abort)\b", text):
+                out["log"] = "%s: forbidden construct" % f
+                out["failed_file"] = f
+                return out
+        out["theorems"] = sorted(n for v in u.get("theorems", {}).values() for n in v)
         key = _sha([_coqc_version(), os.environ.get("VERIF_SEED", "0"), open(os.path.abspath(__file__)).read(), body_text] + [open(os.path.join(COQ, "Generated", f)).read() for f in files]
                    + [open(os.path.join(COQ, d)).read() for d in u["deps"]])
         out["content_sha256"] = key
@@ -118,10 +189,11 @@ def run_unit(name, repo, use_cache=True, keep=None):
                 pass
         import time
         t0 = time.time()
-        rc, log = _compile(work, u["generated"])
-        if rc != 0:
-            out["log"] = log[-1500:]
-            return out
+        for g in gens:
+            rc, log = _compile(work, g)
+            if rc != 0:
+                out["log"] = log[-1500:]
+                return out
         closed = 0
         for stage in u["stages"]:
             for f in stage:
@@ -134,14 +206,28 @@ def run_unit(name, repo, use_cache=True, keep=None):
                     out["failed_file"] = f
                     return out
                 closed += log.count("Closed under the global context")
-                # every Print Assumptions of these files must be closed: no axiom at all
-                if "Axioms:" in log:
-                    out["log"] = "%s: a theorem depends on axioms: %s" % (f, log[-800:])
+                listed = []
+                for block in re.findall(r"Axioms:\n((?:.+\n?)+?)(?:\n|\Z)", log):
+                    for line in block.split("\n"):
+                        m = re.match(r"^([A-Za-z_][A-Za-z0-9_.']*)\s*:", line)
+                        if m and m.group(1) != "Axioms":
+                            listed.append(m.group(1))
+                if u.get("float_axioms"):
+                    import axioms as ax
+                    pats = [re.compile(x) for x in ax.FLOAT_PATTERNS]
+                    bad = sorted(set(a for a in listed if a not in ax.FLOAT_ALLOWED and not any(x.fullmatch(a) for x in pats)))
+                    out["axioms_listed"] = sorted(set(listed))
+                else:
+                    # every Print Assumptions of these files must be closed: no axiom at all
+                    bad = sorted(set(listed)) or (["?"] if "Axioms:" in log else [])
+                if bad:
+                    out["log"] = "%s: a theorem depends on axioms that are not accepted: %s" % (f, bad)
                     out["failed_file"] = f
                     return out
         out.update(proved=True, closed=closed, seconds=round(time.time() - t0, 1))
-        if name == "operation":
-            sem = semantics_check(work, repo, int(os.environ.get("VERIF_SEED", "0") or 0))
+        if name in ("operation", "biofilter"):
+            sem = (semantics_check if name == "operation" else semantics_check_filter)(
+                work, repo, int(os.environ.get("VERIF_SEED", "0") or 0))
             out["minipy_semantics_vs_cpython"] = sem
             if sem.get("error") or sem.get("disagreements") or not sem.get("compared"):
                 out["proved"] = False
@@ -284,8 +370,89 @@ def semantics_check(work, repo, seed=0, n=260):
     return res
 
 
+def _coq_fval(v):
+    if isinstance(v, float):
+        return "(VFloat (%s)%%float)" % float(v).hex()
+    if isinstance(v, list):
+        return "(VList [%s])" % "; ".join(_coq_fval(x) for x in v)
+    return _coq_val(v)
+
+
+def semantics_check_filter(work, repo, seed=0, n=220):
+    """LocalBioFilter: constructor outcome + valid() verdict, MiniPyF interpreter (vm_compute) against CPython"""
+    import random
+    rng = random.Random(1000003 * seed + 29)
+    grid = [0.0, 0.1, 0.25, 0.3, 0.4, 0.5, 0.55, 0.6, 0.7, 0.8, 1.0]
+    cases = []
+    for _ in range(n):
+        k = rng.randint(0, 7)
+        run = rng.choice([None, None, 0, 1, 2, 3, k, k + 1])
+        gc = None
+        if rng.random() < 0.6:
+            lo = rng.choice(grid)
+            gc = [lo, rng.choice([x for x in grid if x >= lo])]
+            if rng.random() < 0.1:
+                gc = [0, 1]                                   # integer bounds
+        motifs = rng.choice([None, None, ["AC"], ["GGG", "at"], ["A" * (k + 1)], ["ACGT", "tTa"], []])
+        m = rng.randint(0, 3 * k + 2)
+        sdna = "".join(rng.choice("ACGT" if rng.random() < 0.8 else "GGCC") for _ in range(m))
+        if rng.random() < 0.12:
+            i = rng.randint(0, len(sdna))
+            sdna = sdna[:i] + rng.choice("Nacgt \n") + sdna[i:]
+        cases.append({"k": k, "run": run, "gc": gc, "motifs": motifs, "s": sdna, "only_last": rng.random() < 0.5})
+    lines = ["From Coq Require Import PrimFloat.", "From DSW Require Import MiniPyF MiniPyFEnc.", "From DSWGen Require Import BiofilterGen.", "Open Scope Z_scope.",
+             "Definition ce0 : string -> list val -> res val := fun _ _ => Stuck."]
+    for c in cases:
+        ctor = "[%s]" % "; ".join(_coq_fval(x) for x in [c["k"], c["run"], c["gc"], c["motifs"]])
+        val = "[%s]" % "; ".join(_coq_fval(x) for x in [c["s"], c["only_last"], c["run"], c["motifs"], c["gc"], c["k"]])
+        lines.append("Eval vm_compute in (enc_proc (run_proc ce0 5 filter_init_def %s) ++ enc_res (run_fun ce0 5 filter_valid_def %s))."
+                     % (ctor, val))
+    open(os.path.join(work, "SemCases.v"), "w").write("\n".join(lines) + "\n")
+    rc, log = _compile(work, "SemCases.v")
+    if rc != 0:
+        return {"cases": len(cases), "compared": 0, "error": log[-600:]}
+    got = [[int(x) for x in re.findall(r"-?\d+", blk.split(": list Z")[0])] for blk in log.split("= ")[1:]]
+    if len(got) != len(cases):
+        return {"cases": len(cases), "compared": 0, "error": "parsed %d answers for %d cases" % (len(got), len(cases))}
+    prog = ("import sys, json\nsys.path.insert(0, %r)\nimport dsw\nout = []\n"
+            "for c in json.load(sys.stdin):\n"
+            "    try:\n"
+            "        f = dsw.LocalBioFilter(observed_length=c['k'], max_homopolymer_runs=c['run'], gc_range=c['gc'], undesired_motifs=c['motifs'])\n"
+            "        a = [0]\n"
+            "    except ValueError:\n"
+            "        f = None\n"
+            "        a = [1, 1]\n"
+            "    if f is None:\n"
+            "        # valid() on the fields the constructor would have stored\n"
+            "        f = dsw.LocalBioFilter.__new__(dsw.LocalBioFilter)\n"
+            "        f.observed_length, f.max_homopolymer_runs, f.gc_range, f.undesired_motifs = c['k'], c['run'], c['gc'], c['motifs']\n"
+            "    try:\n"
+            "        a += [0, 5, int(bool(f.valid(c['s'], only_last=c['only_last'])))]\n"
+            "    except Exception as e:\n"
+            "        a += [1, {ValueError: 1, IndexError: 2, TypeError: 3}.get(type(e), 6)]\n"
+            "    out.append(a)\n"
+            "print(json.dumps(out))\n" % (repo,))
+    p = subprocess.run(["/venv/bin/python", "-c", prog], input=json.dumps(cases), stdout=subprocess.PIPE, stderr=subprocess.PIPE,
+                       universal_newlines=True, env=dict(os.environ, PYTHONHASHSEED="0"))
+    if p.returncode != 0:
+        return {"cases": len(cases), "compared": 0, "error": p.stderr[-600:]}
+    want = json.loads(p.stdout)
+    res = {"cases": len(cases), "compared": 0, "stuck": 0, "disagreements": [], "ctor_rejects": 0, "verdict_true": 0}
+    for c, g, w in zip(cases, got, want):
+        proc, rest = (g[:2], g[2:]) if g[:1] == [1] else (g[:1], g[1:])
+        if proc == [3] or rest == [3]:
+            res["stuck"] += 1                       # outside the modelled fragment
+            continue
+        res["compared"] += 1
+        res["ctor_rejects"] += int(w[:2] == [1, 1])
+        res["verdict_true"] += int(w[-3:] == [0, 5, 1])
+        if g != w and len(res["disagreements"]) < 5:
+            res["disagreements"].append({"case": c, "minipy": g[:20], "cpython": w[:20]})
+    return res
+
+
 def units_for(cone):
-    return [n for n, u in UNITS.items() if any(f in cone for f in u["functions"])]
+    return [n for n, u in UNITS.items() if u.get("enabled", True) and any(f in cone for f in u["functions"])]
 
 
 if __name__ == "__main__":
